@@ -256,7 +256,7 @@ def stream_outbound_tokens(tier):
         if escaped:
             res.violation("outbound:raises", "handling the requests raised %s" % escaped[0], inp)
             continue
-        if sorted(seen) != sorted(names):
+        if sorted(seen, key=repr) != sorted(names, key=repr):
             res.violation("outbound:item-name-decoded-wrong", "the adapter was asked to subscribe %r for the requested items %r" % (seen, names), inp)
             continue
         for kind, line in lines:
